@@ -32,9 +32,19 @@ for spec in specs:
         params['ctl'] = ctl
         params['stop'] = spec['stop']
         if spec.get('use_parameter_list'):
-            pl = batching.ParameterList()
-            for k, v in params.items():
-                pl.add_parameter(k, v)
+            if spec.get('pl_from_dict'):
+                # declared through the constructor from a dict that the caller goes on using for something else afterwards
+                source = dict(params)
+                pl = batching.ParameterList(source)
+                source['zzz_not_a_parameter'] = [1, 2, 3]
+                del source[next(iter(params))]
+            else:
+                pl = batching.ParameterList()
+                for k, v in params.items():
+                    pl.add_parameter(k, v)
+            if spec.get('pl_warmup'):
+                # the same ParameterList object has been used for another batch before (other model class, repetitions of its own)
+                batching.batch_run(bm.WarmModel, pl, repetitions=spec['pl_warmup'], processes=1)
             if spec.get('pl_history'):
                 # the same ParameterList object was used before with one more parameter, which has been removed since
                 pl.add_parameter('zeta', [1, 2, 3])
